@@ -75,10 +75,10 @@ let drv_read rd args =
      | RhPending _ -> "PENDING")
   | _ -> "BADCASE"
 
-(* http_e2e <open_ok> <resp> <segment>... *)
+(* http_e2e <open_ok> <resp> <want_stream_len> <want_reply> <segment>... (the hints are for the implementation driver) *)
 let drv_e2e hd args =
   match args with
-  | ok :: _resp :: segs ->
+  | ok :: _resp :: _wl :: _wr :: segs ->
     let ok = (ok = "1") in
     let evs = hd (tcp_reads (List.map b segs)) false ok in
     let opn = ref "NOOPEN" and reply = ref "NONE" and seen_open = ref false and ord = ref true in
